@@ -485,6 +485,7 @@ func (x *Exec) modularContracts(fn *ssa.Function) []*Contract {
 func (x *Exec) applyContract(st *State, fn *ssa.Function, cts []*Contract, args []Value) []Out {
 	res := fn.Signature.Results()
 	vals := make([]Value, res.Len())
+	resMark := cellCtr
 	var flatArgs []*Term
 	pure := true
 	readsOnly := false
@@ -608,6 +609,14 @@ func (x *Exec) applyContract(st *State, fn *ssa.Function, cts []*Contract, args 
 				env.vars[sst.let.name] = x.eval(st, env, sst.let.expr)
 			}()
 		}
+		// "r.f == s" for an abstract shape: the arbitrary shape made up for the result's field is that one
+		if !inSpec {
+			for _, cl := range ct.ensures {
+				if len(cl.vars) == 0 && !mentionsEvents(cl.expr) && !(len(fa) > 0 && mentionsIdent(cl.expr, fa)) {
+					x.unifyAbstract(st, env, cl.expr, resMark, vals)
+				}
+			}
+		}
 		for _, cl := range ct.ensures {
 			if len(unavailable) > 0 && mentionsIdent(cl.expr, unavailable) {
 				continue
@@ -666,6 +675,111 @@ func (x *Exec) applyContract(st *State, fn *ssa.Function, cts []*Contract, args 
 	return []Out{{st: st, vals: vals}}
 }
 
+// unifyAbstract: a postcondition conjunct "a == b" between two abstract shapes,
+// one of which was made up for the havocked result of this call, is realised by
+// making the result hold the other one (abstract shapes are compared by identity).
+func (x *Exec) unifyAbstract(st *State, env *Env, e Expr, mark int, vals []Value) {
+	b, ok := e.(*EBin)
+	if !ok {
+		return
+	}
+	if b.op == "&&" {
+		x.unifyAbstract(st, env, b.l, mark, vals)
+		x.unifyAbstract(st, env, b.r, mark, vals)
+		return
+	}
+	if b.op != "==" {
+		return
+	}
+	try := func(e Expr) (v Value) {
+		defer func() {
+			if r := recover(); r != nil {
+				if _, ok := r.(engineErr); !ok {
+					panic(r)
+				}
+				v = nil
+			}
+		}()
+		x.specMode++
+		defer func() { x.specMode-- }()
+		return x.eval(st, env, e)
+	}
+	if !mentionsResultField(b.l) && !mentionsResultField(b.r) {
+		return
+	}
+	lv, rv := try(b.l), try(b.r)
+	la, lok := lv.(*AbsObj)
+	ra, rok := rv.(*AbsObj)
+	if !lok || !rok || la == ra {
+		return
+	}
+	var from *AbsObj
+	var to Value
+	switch {
+	case la.stamp > mark && ra.stamp <= mark:
+		from, to = la, ra
+	case ra.stamp > mark && la.stamp <= mark:
+		from, to = ra, la
+	default:
+		return
+	}
+	var subst func(v Value) Value
+	subst = func(v Value) Value {
+		switch t := v.(type) {
+		case *AbsObj:
+			if t == from {
+				return to
+			}
+		case *Tuple:
+			var el []Value
+			for i, e := range t.el {
+				ne := subst(e)
+				if ne != e && el == nil {
+					el = append([]Value{}, t.el...)
+				}
+				if el != nil {
+					el[i] = ne
+				}
+			}
+			if el != nil {
+				return &Tuple{typ: t.typ, el: el}
+			}
+		case *Iface:
+			if nv := subst(t.val); nv != t.val {
+				return &Iface{dyn: t.dyn, val: nv}
+			}
+		}
+		return v
+	}
+	for c, v := range st.store {
+		if c.id > mark {
+			if nv := subst(v); nv != v {
+				st.store[c] = nv
+			}
+		}
+	}
+	for i := range vals {
+		vals[i] = subst(vals[i])
+	}
+}
+
+// mentionsResultField: the expression selects a component of the result (r.f, r0.f, result.f).
+func mentionsResultField(e Expr) bool {
+	switch n := e.(type) {
+	case *ESel:
+		if id, ok := n.x.(*EIdent); ok {
+			switch id.name {
+			case "r", "r0", "r1", "result":
+				return true
+			}
+		}
+		return mentionsResultField(n.x)
+	case *EIndex:
+		return mentionsResultField(n.x)
+	}
+	return false
+}
+
 // heapEpoch counts the writes so far to memory that existed when the function
 // under contract was entered (parameters' targets, globals, object regions):
 // two reads-only calls with the same epoch saw the same shared heap.
@@ -679,10 +793,34 @@ func (x *Exec) heapEpoch(st *State) int {
 	return n
 }
 
-// regionable: objects of struct or array type can live in a symbolic region.
+// regionable: objects of struct or array type can live in a symbolic region
+// when all their components can be read back from one (scalars, nested
+// structs/arrays, pointers, slices - not interfaces, maps, functions, channels).
 func regionable(t types.Type) bool {
 	switch t.Underlying().(type) {
 	case *types.Struct, *types.Array:
+		return regionComponent(t, 0)
+	}
+	return false
+}
+
+func regionComponent(t types.Type, depth int) bool {
+	if depth > 6 {
+		return true
+	}
+	switch u := t.Underlying().(type) {
+	case *types.Basic:
+		return true
+	case *types.Struct:
+		for i := 0; i < u.NumFields(); i++ {
+			if !regionComponent(u.Field(i).Type(), depth+1) {
+				return false
+			}
+		}
+		return true
+	case *types.Array:
+		return regionComponent(u.Elem(), depth+1)
+	case *types.Pointer, *types.Slice:
 		return true
 	}
 	return false
